@@ -37,6 +37,9 @@ def run(ctx, gen_status):
         k = 1 if q1 else r.randint(1, 3)
         hist = [[r.choice([1.0, 1.5, 3.0]) if not q1 else r.choice([4.0, 8.0, 12.0]), 1.0 if q1 else r.choice([0.01, 0.05]), r.randint(1, 20 if q1 else 400)] for _ in range(k)]
         br.append({'hist': hist, 'delta': r.choice([1e-3, 1e-5, 1e-6, 1e-9]), 'eps_error': r.choice([0.1, 0.01] + ([0.001] if ctx.thorough else []))})
+    # a heavy run followed by a light tail (a scheduler raising sigma for the last steps): the truncation domain must cover the whole history
+    for _ in range(ctx.n(3, 12)):
+        br.append({'hist': [[r.choice([1.5, 2.0]), r.choice([0.05, 0.1]), r.choice([300, 500])], [r.choice([4.0, 6.0]), 0.1, r.randint(5, 30)]], 'delta': 1e-5, 'eps_error': 0.01})
     res = vlib.run_impl('prv_cases.py', {'spike': spikes, 'hetero': het, 'bracket': br}, timeout=7200)
     items = []
     for c, rr in zip(spikes, res['spike']):
@@ -76,6 +79,8 @@ def run(ctx, gen_status):
             ctx.fail('triple-not-ordered', 'triple (%r, %r, %r)' % (rr['lo'], rr['est'], rr['up']), c)
         if rr['reported'] != rr['up']:
             ctx.fail('reported-not-upper', 'reported %r, upper %r' % (rr['reported'], rr['up']), c)
+        if 'prefix_lo' in rr and rr['up'] < rr['prefix_lo'] - 1e-9:
+            ctx.fail('prv-below-prefix-lower-bound', 'upper bound %r for the whole history is below the lower bound %r of the history without its last entry' % (rr['up'], rr['prefix_lo']), c)
         if 'true' in rr:
             if rr['reported'] < rr['true'] - 1e-6 or rr['reported'] > rr['true'] + 2 * ee + 1e-3:
                 ctx.fail('prv-does-not-bracket-truth', 'reported %r, true epsilon (Gaussian closed form) %r, eps_error %r' % (rr['reported'], rr['true'], ee), c)
